@@ -2,8 +2,9 @@
 
 R1  every key of a response's `_headers` dict is lower-case.
 R2  Set-Cookie is kept out of `_headers` (guards, extra-header route).
-R3  both emitters merge the three stores, in order, one line per cookie.
-R4  cookie attributes: parameter -> morsel key wiring and presence guards.
+R3  both emitters merge the three stores, in order, one line per cookie, no appended line filtered out.
+R4  cookie attributes: parameter -> morsel key wiring and presence guards; Domain / Path are the parameter itself.
+R12 presence of a plain header is decided by the key, never by the truth of the stored value (append and every reader).
 R5  URI-bearing helpers are URI-encoded.
 R6  the header-property factory.
 R16 every plain-header writer stores str(value) (= C05 R12, shared).
@@ -14,7 +15,7 @@ R18 the ETag formatter leaves ready entity-tags alone (= C09 R4, shared).
 from __future__ import annotations
 
 import ast
-from typing import Dict, List, Optional, Set, Tuple
+from typing import Dict, FrozenSet, List, Optional, Set, Tuple
 
 from .. import flow
 from ..cfg import cfg_of
@@ -415,6 +416,15 @@ def _emitter(run, tag, f: Func, want_bytes: bool):
             if want_bytes:
                 ok = ok and isinstance(e.elt.elts[0], ast.Call) and isinstance(e.elt.elts[1], ast.Call)
             why = 'one tuple per stored line, name and value only encoded'
+        elif isinstance(e, (ast.ListComp, ast.GeneratorExp)) and len(e.generators) == 1 and den(e.generators[0].iter) and e.generators[0].ifs:
+            # a FILTER over the appended lines: some line handed to append_header('Set-Cookie', v) is not emitted.  Whatever the
+            # condition says, "one separate Set-Cookie line per appended raw cookie" quantifies over every appended line; the
+            # only legitimate reason to withhold the store is that it is empty (the presence test judged above)
+            run.fail('%s: every appended raw Set-Cookie line is emitted: the lines of _extra_headers are not filtered' % tag, f,
+                     e.generators[0].ifs[0], where=f.loc(e), witness=['filter: %s' % short(e, 140)],
+                     runtime_witness="resp.append_header('Set-Cookie', 'sid=raw; Path=/legacy'); resp.set_cookie('sid', 'v'): "
+                                     'the appended line is sent on one interface and dropped on the other')
+            continue
         else:
             raise UnknownIdiom('%s: shape of the _extra_headers merge: %s' % (f.qual, short(e)))
         run.check(ok, '%s: every appended raw Set-Cookie line is emitted once, name and value unchanged%s' % (
@@ -600,12 +610,22 @@ def _morsel_stores(p, f: Func, cfg, name_param: str):
     [(cfg node, value expr, stmt)] for `<jar>[name] = V`."""
     den, _al = store_exprs(p, f, '_cookies')
     attrs, values = [], []
+    # `morsel = <jar>[name]`: a local bound only to this cookie's morsel stands for it
+    defs = Defs(f)
+    morsels = {nm for nm, ds in defs.defs.items() if nm not in defs.params and ds and all(
+        d[0] == 'assign' and isinstance(strip_await(d[1]), ast.Subscript) and den(strip_await(d[1]).value)
+        and isinstance(strip_await(d[1]).slice, ast.Name) and strip_await(d[1]).slice.id == name_param for d in ds)}
     for n in cfg.live_nodes():
         if n.kind != 'stmt' or not isinstance(n.ast, (ast.Assign, ast.AnnAssign)):
             continue
         tg = n.ast.targets if isinstance(n.ast, ast.Assign) else [n.ast.target]
         for t in tg:
-            if isinstance(t, ast.Subscript) and isinstance(t.value, ast.Subscript) and den(t.value.value):
+            if isinstance(t, ast.Subscript) and isinstance(t.value, ast.Name) and t.value.id in morsels:
+                k = p.fold(f.module, t.slice, None, f)
+                if not isinstance(k, str):
+                    raise UnknownIdiom('%s: morsel key is not a constant: %s' % (f.qual, short(n.ast)))
+                attrs.append((n, k.lower(), n.ast.value, n.ast))
+            elif isinstance(t, ast.Subscript) and isinstance(t.value, ast.Subscript) and den(t.value.value):
                 if not (isinstance(t.value.slice, ast.Name) and t.value.slice.id == name_param):
                     raise UnknownIdiom('%s: morsel of another cookie is written: %s' % (f.qual, short(n.ast)))
                 k = p.fold(f.module, t.slice, None, f)
@@ -675,9 +695,101 @@ def _truthiness_atoms(test) -> List[ast.Name]:
     return out
 
 
+# text attributes whose stored value is the parameter ITSELF, in set_cookie and in unset_cookie alike (parameter -> morsel key).
+# The other attributes have a tabled rendering that exists today and is judged elsewhere: int(max_age) (RFC 6265 5.2.2: digits
+# only), strftime of expires in GMT (R4 astimezone / R13), the case normalisation of same_site, the flags secure / httponly /
+# partitioned (True under the parameter's control).
+COOKIE_TEXT_ATTRS = {'domain': 'domain', 'path': 'path'}
+_CELLS = ('None', "''", 'non-empty str')
+
+
+def _cell_eval(prov: Provenance, nid: int, e, cell: str) -> Optional[bool]:
+    """Truth of the test `e` when the tracked parameter lies in `cell` (None / '' / some non-empty str); None = not readable.
+    A name stands for the parameter when every definition reaching the test is the parameter itself (identity provenance)."""
+    e = strip_await(e)
+
+    def is_param(x):
+        return isinstance(x, ast.Name) and prov._name(x.id, nid).identical
+
+    if isinstance(e, ast.Constant):
+        return bool(e.value)
+    if isinstance(e, ast.Name):
+        return (cell == 'non-empty str') if is_param(e) else None
+    if isinstance(e, ast.UnaryOp) and isinstance(e.op, ast.Not):
+        v = _cell_eval(prov, nid, e.operand, cell)
+        return None if v is None else (not v)
+    if isinstance(e, ast.BoolOp):
+        vs = [_cell_eval(prov, nid, x, cell) for x in e.values]
+        if any(v is None for v in vs):
+            return None
+        return all(vs) if isinstance(e.op, ast.And) else any(vs)
+    if isinstance(e, ast.Compare) and len(e.ops) == 1 and is_param(e.left) and isinstance(e.comparators[0], ast.Constant):
+        c, op = e.comparators[0].value, e.ops[0]
+        if c is None and isinstance(op, (ast.Is, ast.IsNot, ast.Eq, ast.NotEq)):
+            r = cell == 'None'
+            return r if isinstance(op, (ast.Is, ast.Eq)) else (not r)
+        if c == '' and isinstance(c, str) and isinstance(op, (ast.Eq, ast.NotEq)):
+            r = cell == "''"
+            return r if isinstance(op, ast.Eq) else (not r)
+    return None
+
+
+def _cookie_text_attrs(run, f: Func, cfg, attrs) -> Dict[str, FrozenSet[str]]:
+    """The text attributes Domain / Path carry the parameter itself (provenance over the may-reaching definitions: identity,
+    str(), copies through locals; any narrowing or rewriting step - strip, rstrip('/'), lower, slice, replace, `x or '/'`
+    around one - is a violation, an unread step UnknownIdiom).  Returns per attribute the cells of the parameter's
+    None / '' / non-empty partition for which the attribute is written (for the sibling comparison)."""
+    p = run.project
+    cells: Dict[str, FrozenSet[str]] = {}
+    for prm, key in sorted(COOKIE_TEXT_ATTRS.items()):
+        if prm not in f.params():
+            raise AnchorError('%s has no parameter %s' % (f.qual, prm))
+        prov = Provenance(p, f, prm)
+        written: Set[str] = set()
+        for (n, k, val, stmt) in attrs:
+            if k != key:
+                continue
+            what = ('%s: the cookie attribute %r carries the parameter %s itself - the user agent matches Domain/Path exactly, a cookie '
+                    'set with one spelling is not replaced or removed by another' % (f.name, key, prm))
+            rw = "resp.set_cookie('sid', 'v', path='/app/') emits Path=/app/, resp.unset_cookie('sid', path='/app/') emits Path=/app: " \
+                 'the browser keeps the cookie'
+            o = prov.classify(val, n.id)
+            if not o.derived:
+                run.fail(what, f, stmt, where=f.loc(stmt), witness=['%s does not derive from the parameter %s' % (short(val), prm)], runtime_witness=rw)
+            else:
+                bad = o.xforms
+                run.check(not bad, what, f, bad[0][1] if bad else stmt, where=f.loc(stmt), witness=(o.describe() + ['stored by %s' % short(stmt, 100)]) if bad else None,
+                          runtime_witness=rw)
+            edges = _deciding_edges(cfg, n.id)
+            for cell in _CELLS:
+                vals = [_cell_eval(prov, e[0], cfg.node(e[0]).ast, cell) for e in edges]
+                if any(v is None for v in vals):
+                    raise UnknownIdiom('%s: cannot evaluate the guard of %s over the None / empty / non-empty cells of %s: %s' % (
+                        f.qual, short(stmt, 60), prm, '; '.join(short(cfg.node(e[0]).ast, 50) for e, v in zip(edges, vals) if v is None)))
+                if all(v == (e[2] == 'T') for e, v in zip(edges, vals)):
+                    written.add(cell)
+        cells[key] = frozenset(written)
+    return cells
+
+
+def _cookie_text_siblings(run, fs: Func, cs, fu: Func, cu):
+    """set_cookie and unset_cookie agree on WHEN Domain / Path are written (same cells of the None / '' / non-empty partition of
+    the parameter): the cookie that unset_cookie(name, domain=d, path=x) expires must be the one set_cookie(name, v, domain=d,
+    path=x) created."""
+    for key in sorted(COOKIE_TEXT_ATTRS.values()):
+        a, b = cs.get(key, frozenset()), cu.get(key, frozenset())
+        run.check(a == b, 'set_cookie and unset_cookie write the cookie attribute %r for the same values of the parameter (cells of None / '
+                  "'' / non-empty)" % key, fu, '%s written for: %s' % (key, ', '.join(c for c in _CELLS if c in b) or 'nothing'), where=fu.loc(),
+                  witness=['set_cookie writes it for: %s' % (', '.join(c for c in _CELLS if c in a) or 'nothing'),
+                           'unset_cookie writes it for: %s' % (', '.join(c for c in _CELLS if c in b) or 'nothing')],
+                  runtime_witness='the expiring Set-Cookie line addresses a different (domain, path) than the line that set the cookie')
+
+
 def r4_cookie_attributes(run):
     p = run.project
     _require_stores(p)
+    set_cells = None
+    set_func = None
     for cq in (RESPONSE, ASGI_RESPONSE):
         f = p.lookup_method(cq, 'set_cookie')
         if f is None:
@@ -720,6 +832,10 @@ def r4_cookie_attributes(run):
                                    '(a naive value is UTC by contract, astimezone() would read it as local time)' % prm, f, c0,
                               runtime_witness='TZ=EST5: set_cookie(expires=datetime(2030,1,1,12,0)) emits 17:00:00 GMT')
         cfg, attrs, values, taint = _cookie_wiring(run, f, SET_COOKIE_TABLE, 'name', {})
+        if cq == RESPONSE:
+            set_cells, set_func = _cookie_text_attrs(run, f, cfg, attrs), f
+        else:
+            _cookie_text_attrs(run, f, cfg, attrs)
         # secure=None defers to the app option
         is_none_atom = lambda e: (isinstance(e, ast.Compare) and len(e.ops) == 1 and isinstance(e.left, ast.Name)  # noqa: E731
                                   and e.left.id == 'secure' and isinstance(e.ops[0], ast.Is)
@@ -790,6 +906,7 @@ def r4_cookie_attributes(run):
     if g is None:
         raise AnchorError('Response.unset_cookie not found')
     cfg, attrs, values, taint = _cookie_wiring(run, g, UNSET_COOKIE_TABLE, 'name', {'expires': None})
+    _cookie_text_siblings(run, set_func, set_cells, g, _cookie_text_attrs(run, g, cfg, attrs))
     for (n, val, stmt) in values:
         run.check(p.fold(g.module, val, None, g) == '', 'unset_cookie stores an empty cookie value', g, stmt)
     run.check(flow.dominated_by_nodes(cfg, cfg.exit, [n.id for (n, _v, _s) in values]),
@@ -1333,6 +1450,7 @@ def r12_append_presence(run):
     W: set_header('X-A', ''); append_header('X-A', 'a') -> get_header gives 'a', the model ', a'."""
     p = run.project
     n = 0
+    judged: Set[int] = set()
     for q in ('falcon.response.Response.append_header', 'falcon.response.Response.append_link'):
         f = p.func(q)
         run.use(f)
@@ -1374,10 +1492,98 @@ def r12_append_presence(run):
                 # not a test about the header's presence (e.g. the Set-Cookie guard)
                 continue
             n += 1
+            judged.update(id(x) for x in ast.walk(t))
             run.check(ok, '%s decides "header already present" by the key (membership / is not None), not by the truth of the stored value' % f.name,
                       f, t, runtime_witness="resp.set_header('X-A', ''); resp.append_header('X-A', 'a'): get_header('x-a') == 'a' but the map model holds ', a'")
     if n < 2:
         raise AnchorError('presence tests of append_header/append_link not found (%d)' % n)
+    _presence_by_key_readers(run, judged)
+
+
+_VALUE_READS = ('load', 'get', 'pop', 'setdefault')
+
+
+def _truth_position(node, parent) -> Optional[ast.AST]:
+    """The enclosing expression that decides something by the TRUTH (or emptiness) of `node`'s value, else None.
+    The value passes through the last operand of and/or and through the arms of a conditional expression."""
+    cur = node
+    while True:
+        par = parent.get(id(cur))
+        if par is None:
+            return None
+        if isinstance(par, ast.Await):
+            cur = par
+            continue
+        if isinstance(par, ast.BoolOp):
+            if par.values[-1] is not cur:
+                return par
+            cur = par
+            continue
+        if isinstance(par, ast.IfExp):
+            if par.test is cur:
+                return par
+            cur = par
+            continue
+        if isinstance(par, ast.UnaryOp) and isinstance(par.op, ast.Not):
+            return par
+        if isinstance(par, (ast.If, ast.While, ast.Assert)) and par.test is cur:
+            return cur
+        if isinstance(par, ast.comprehension) and any(x is cur for x in par.ifs):
+            return cur
+        if isinstance(par, ast.Call) and isinstance(par.func, ast.Name) and par.func.id == 'bool' and par.args == [cur]:
+            return par
+        if isinstance(par, ast.Compare) and len(par.ops) == 1 and isinstance(par.ops[0], (ast.Eq, ast.NotEq)):
+            other = par.comparators[0] if par.left is cur else par.left
+            if isinstance(other, ast.Constant) and other.value == '' and isinstance(other.value, str):
+                return par       # `v == ''` / `v != ''` is the truth of a str spelled out
+        return None
+
+
+def _presence_by_key_readers(run, judged: Set[int]):
+    """Second half of R12, over EVERY read of a value out of a response's plain header dict in the package
+    (get_header, delete_header, append_header, the header-property getter, ...): a header set to '' is PRESENT, so
+    whether a header exists is decided by the key (membership, `.get(k, default)`, `.pop(k, None)`, KeyError), never by
+    the truth of the value read.  The value read (or a local bound only to such reads) must not stand in a truth
+    position: operand of `or`/`and` other than the last, `not`, test of if/while/conditional expression/assert/
+    comprehension filter, `bool(v)`, `v == ''`.
+    W (seed s9-c15-1): `self._headers.get(name) or default`: set_header('X-Flags', ''); get_header('X-Flags', default='d')
+    returns 'd', without a default None - the map model holds ''."""
+    p = run.project
+    by_func: Dict[str, List[Site]] = {}
+    for s in _sites(run):
+        by_func.setdefault(s.func.qual, []).append(s)
+    n = 0
+    rw = "resp.set_header('X-Flags', ''); resp.get_header('X-Flags', default='d') gives 'd' (None without a default) - the map model holds ''"
+    for q, ss in sorted(by_func.items()):
+        reads = [s for s in ss if s.kind in _VALUE_READS and not (isinstance(s.node, ast.Subscript) and not isinstance(s.node.ctx, ast.Load))]
+        if not reads:
+            continue
+        f = ss[0].func
+        parent = enclosing_map(f.node)
+        read_ids = {id(s.node) for s in reads}
+        defs = Defs(f)
+        holders = {name for name, ds in defs.defs.items() if name not in defs.params and ds
+                   and all(d[0] == 'assign' and id(strip_await(d[1])) in read_ids for d in ds)}
+        uses: Dict[int, List[ast.AST]] = {id(s.node): [s.node] for s in reads}
+        for x in walk_no_nested(f.node):
+            if isinstance(x, ast.Name) and isinstance(x.ctx, ast.Load) and x.id in holders:
+                for d in defs.defs[x.id]:
+                    uses[id(strip_await(d[1]))].append(x)
+        for s in reads:
+            n += 1
+            bad = []
+            for u in uses[id(s.node)]:
+                tp = _truth_position(u, parent)
+                if tp is not None and id(tp) not in judged and not any(b is tp for b in bad):
+                    bad.append(tp)
+            what = ('%s: the value read from the header dict (%s) is never evaluated for its truth: whether the header is present '
+                    'is decided by the key, a header set to the empty string is present' % (f.name, short(s.node, 50)))
+            if not bad:
+                run.ok(what, f.loc(s.node), s.node)
+            for tp in bad:
+                run.fail(what, f, tp, where=f.loc(tp), witness=['truth position: %s' % short(tp, 100)], runtime_witness=rw)
+    if n < 2:
+        raise AnchorError('value reads of the response header dict not found (%d: expected at least get_header and the property getter)' % n)
 
 
 def r14_jar_only_grows(run):
@@ -1635,16 +1841,18 @@ def check(run):
     run.assume('falcon/cyutil/misc.pyx (encode_items_to_latin1) is not analysed; the pure-Python twin is')
     run.rule('R1', r1_lower_keys, 'every key of a response header dict is lower-case', floor=25)
     run.rule('R2', r2_set_cookie_guard, 'Set-Cookie never enters/leaves through the plain header dict', floor=38)
-    run.rule('R3', r3_emitters, 'three stores, two emitters', floor=20)
+    run.rule('R3', r3_emitters, 'three stores, two emitters; every stored line is emitted (no filter over the appended raw lines)', floor=20)
     run.rule('R4', r4_cookie_attributes, 'cookie parameter -> attribute wiring (value flow and control: a local rebound under a test of another parameter '
-             'carries that parameter; reject guards excepted) and presence guards', floor=26)
+             'carries that parameter; reject guards excepted) and presence guards; Domain / Path carry the parameter itself in set_cookie and '
+             'unset_cookie alike (provenance), written for the same cells of the parameter', floor=32)
     from . import c09 as _c09
 
     run.rule('R13', _c09.localtime_sweep, 'cookie expiry and date headers are formatted as UTC, never through the process-local zone (shared with C09 R4)', floor=1)
     run.rule('R5', r5_uri_helpers, 'URI-bearing helpers are percent-encoded', floor=9)
     run.rule('R6', r6_property_factory, 'header property factory: one key, None deletes, transform applied', floor=16)
     run.rule('R14', r14_jar_only_grows, 'the cookie jar only grows: no entry removed, jar rebound only from None to a fresh jar', floor=3)
-    run.rule('R12', r12_append_presence, 'append decides presence by key, not by the truth of the value', floor=2)
+    run.rule('R12', r12_append_presence, 'presence is decided by the key, not by the truth of the stored value: the append/join decision and every '
+             'reader of the header dict (get_header, delete_header, the property getter)', floor=4)
     run.rule('R10', r10_ascii_fallback, 'the ASCII fallback of a download filename is ASCII', floor=2)
     run.rule('R9', r9_single_pass, 'set_headers consumes its iterable argument in a single pass', floor=1)
     # the URI-bearing helpers (Location, Content-Location, Link) go through the
